@@ -279,6 +279,8 @@ def run_histories(ctx, comps, klass, plan, oracles, alt=False, fresh_check=False
                     g0 = games.sa_zero_rich_game(rng, n) if rng.random() < 0.15 else games.sa_closure_game(rng, n, rng.choice(["int", "dyadic"]))
                 else:
                     g0 = games.sam_game(rng, n, rng.choice(["int", "dyadic"]))
+                if alt:
+                    return g0      # values of two games get mixed: differently scaled variants would make sums inexact in binary
                 return magnitude_variant(rng, n, g0, "", allow_offset=(klass == "sa"))[0]
             v = draw()
             v2 = draw() if alt else None
